@@ -163,105 +163,152 @@ def shrink(lines, bad):
 
 # ------------------------------------------------------------------------------- CLI level
 def gen_cli_unit(rng, nblocks, names):
-    """A translation unit with nested blocks, shadowing, tags vs ordinary identifiers, typedef names,
-    enumeration constants, parameters and labels; every use is observed as static data.
+    """A translation unit with nested blocks, selection/iteration statements whose substatements are blocks of
+    their own (C11 6.8.4p3, 6.8.5p5), declarations inside expressions, shadowing, tags vs ordinary identifiers;
+    every use is observed as a constant (static data at file scope, a store to a global inside functions).
     Returns (source, scope-op script, list of check names in order)."""
     src = []
     ops = ['S']
     checks = []
     val = [1]
+    st = [dict(d=set(), t={})]      # generator-side view: per scope declared names / tag kinds
 
     def fresh():
         val[0] += 1
         return val[0]
 
-    def decl_ident(name, indent):
-        v = fresh()
-        src.append('%senum { %s = %d };' % (indent, name, v))
-        ops.append('d %s %d' % (name.encode().hex(), v))
+    def push():
+        ops.append('+'); st.insert(0, dict(d=set(), t={}))
 
-    def decl_tag(name, indent):
-        v = fresh() % 4000 + 1
-        which = rng.choice(['struct', 'union'])
-        src.append('%s%s %s { char a[%d]; };' % (indent, which, name, v))
-        ops.append('t %s %d' % (name.encode().hex(), v))
-        return which
+    def pop():
+        ops.append('-'); st.pop(0)
 
-    tagkind = [{}]   # per scope: name -> struct/union   (to spell the use correctly)
-    declared = [set()]
-    tagged = [set()]
-
-    def visible_tag(name):
-        for fr in tagkind:
-            if name in fr:
-                return fr[name]
+    def visible_tag(n):
+        for fr in st:
+            if n in fr['t']:
+                return fr['t'][n]
         return None
 
-    def use(indent):
+    def ident_decl_text(n):
+        v = fresh()
+        ops.append('d %s %d' % (n.encode().hex(), v)); st[0]['d'].add(n)
+        return 'enum { %s = %d }' % (n, v)
+
+    def tag_decl_text(n):
+        v = fresh() % 4000 + 1
+        k = rng.choice(['struct', 'union'])
+        ops.append('t %s %d' % (n.encode().hex(), v)); st[0]['t'][n] = k
+        return '%s %s { char a[%d]; }' % (k, n, v)
+
+    def use_text(infunc):
+        """returns a statement/declaration observing one name, or None"""
         n = rng.choice(names)
         c = 'chk_%d' % len(checks)
         if rng.random() < 0.6:
-            if any(n in d for d in declared):
-                src.append('%sstatic int %s = %s;' % (indent, c, n))
-                ops.append('gd %s 1' % n.encode().hex())
-                checks.append(c)
+            if any(n in fr['d'] for fr in st):
+                ops.append('gd %s 1' % n.encode().hex()); checks.append(c)
+                return ('%s = %s;' if infunc else 'int %s = %s;') % (c, n)
         else:
             k = visible_tag(n)
             if k:
-                src.append('%sstatic int %s = sizeof(%s %s);' % (indent, c, k, n))
-                ops.append('gt %s 1' % n.encode().hex())
-                checks.append(c)
+                ops.append('gt %s 1' % n.encode().hex()); checks.append(c)
+                return ('%s = sizeof(%s %s);' if infunc else 'int %s = sizeof(%s %s);') % (c, k, n)
+        return None
+
+    def simple_item(ind):
+        """a declaration or use valid as a block item"""
+        r = rng.random()
+        n = rng.choice(names)
+        if r < 0.3 and n not in st[0]['d']:
+            src.append(ind + ident_decl_text(n) + ';')
+        elif r < 0.45 and n not in st[0]['t']:
+            src.append(ind + tag_decl_text(n) + ';')
+        else:
+            u = use_text(True)
+            if u:
+                src.append(ind + u)
+
+    def substmt(ind, depth):
+        """a substatement of a selection/iteration statement: a block of its own"""
+        push()
+        r = rng.random()
+        if r < 0.4 and depth < 12:
+            block(ind, depth + 1)
+        elif r < 0.7:
+            n = rng.choice(names)
+            if rng.random() < 0.6:
+                src.append(ind + '\t(void)sizeof(%s);' % ident_decl_text(n))
+            else:
+                src.append(ind + '\t(void)sizeof(%s);' % tag_decl_text(n))
+        else:
+            u = use_text(True)
+            src.append(ind + '\t' + (u or ';'))
+        pop()
+
+    def block(ind, depth):
+        src.append(ind + '{'); push()
+        for _ in range(rng.randint(1, 7)):
+            item(ind + '\t', depth)
+        pop(); src.append(ind + '}')
+
+    def item(ind, depth):
+        r = rng.random()
+        if depth > 14 or r < 0.55:
+            simple_item(ind)
+        elif r < 0.65:
+            block(ind, depth + 1)
+        elif r < 0.80:
+            push()
+            src.append(ind + 'if (%s)' % rng.choice(['1', '0', 'chk_g']))
+            substmt(ind, depth)
+            if rng.random() < 0.7:
+                src.append(ind + 'else')
+                substmt(ind, depth)
+            pop()
+        elif r < 0.86:
+            push(); src.append(ind + 'while (chk_g)'); substmt(ind, depth); pop()
+        elif r < 0.91:
+            push(); src.append(ind + 'do'); substmt(ind, depth); src.append(ind + 'while (0);'); pop()
+        elif r < 0.96:
+            push()
+            n = rng.choice(names)
+            src.append(ind + 'for (int i_ = sizeof(%s); chk_g; )' % ident_decl_text(n))
+            substmt(ind, depth)
+            pop()
+        else:
+            push(); src.append(ind + 'switch (chk_g)'); substmt(ind, depth); pop()
 
     # file scope
     for n in rng.sample(names, min(len(names), 6)):
-        decl_ident(n, ''); declared[0].add(n)
+        src.append(ident_decl_text(n) + ';')
     for n in rng.sample(names, min(len(names), 4)):
-        tagkind[0][n] = decl_tag(n, ''); tagged[0].add(n)
-    nfun = 0
+        src.append(tag_decl_text(n) + ';')
     for b in range(nblocks):
-        nfun += 1
-        src.append('void fn_%d(void)' % nfun)
-        src.append('{')
-        ops.append('+')       # function body scope (parameters live here too)
-        tagkind.insert(0, {}); declared.insert(0, set()); tagged.insert(0, set())
-        depth = 1
-        steps = rng.randint(5, 40)
-        for _ in range(steps):
-            ind = '\t' * depth
-            r = rng.random()
-            if r < 0.2 and depth < 40:
-                src.append(ind + '{'); ops.append('+'); depth += 1
-                tagkind.insert(0, {}); declared.insert(0, set()); tagged.insert(0, set())
-            elif r < 0.35 and depth > 1:
-                depth -= 1
-                src.append('\t' * depth + '}'); ops.append('-')
-                tagkind.pop(0); declared.pop(0); tagged.pop(0)
-            elif r < 0.55:
-                n = rng.choice(names)
-                if n not in declared[0]:
-                    decl_ident(n, ind); declared[0].add(n)
-            elif r < 0.68:
-                n = rng.choice(names)
-                if n not in tagged[0]:
-                    tagkind[0][n] = decl_tag(n, ind); tagged[0].add(n)
-            else:
-                use(ind)
-        while depth > 1:
-            depth -= 1
-            src.append('\t' * depth + '}'); ops.append('-')
-            tagkind.pop(0); declared.pop(0); tagged.pop(0)
-        src.append('}'); ops.append('-')
-        tagkind.pop(0); declared.pop(0); tagged.pop(0)
+        src.append('void fn_%d(void)' % (b + 1))
+        src.append('{'); push()       # function body scope (= parameter scope)
+        for _ in range(rng.randint(3, 14)):
+            item('\t', 1)
+        pop(); src.append('}')
         for _ in range(3):
-            use('')
-    return '\n'.join(src) + '\n', ops, checks
+            u = use_text(False)
+            if u:
+                src.append(u)
+    head = 'int chk_g;\n' + ''.join('int chk_%d;\n' % i for i in range(len(checks)))
+    # file-scope checks are definitions `int chk_N = ...;` themselves: drop their tentative twins
+    body = '\n'.join(src) + '\n'
+    for i in range(len(checks)):
+        if re.search(r'^int chk_%d = ' % i, body, re.M):
+            head = head.replace('int chk_%d;\n' % i, '')
+    return head + body, ops, checks
 
 
 def parse_data_ints(il):
-    """static int data definitions: name -> value (first w item), from cproc's IL text"""
+    """observed constants: `data $name = { w N, }` definitions and `storew N, $name` inside functions"""
     res = {}
-    for m in re.finditer(r'^data \$(?:\.L)?([A-Za-z_0-9]+)(?:\.\d+)? = align \d+ \{ w (-?\d+), \}', il, re.M):
+    for m in re.finditer(r'^(?:export )?data \$(?:\.L)?([A-Za-z_0-9]+?)(?:\.\d+)? = align \d+ \{ w (-?\d+), \}', il, re.M):
         res.setdefault(m.group(1), []).append(int(m.group(2)))
+    for m in re.finditer(r'^\tstorew (-?\d+), \$([A-Za-z_0-9]+)$', il, re.M):
+        res.setdefault(m.group(2), []).append(int(m.group(1)))
     return res
 
 
@@ -342,7 +389,9 @@ def run(ctx):
                         if int(p[2]) > int(lines[0].split(' ')[1]):
                             stats['growths'] += 1
                 nontrivial.add(hash(tuple(lines)))
-                if rc1 != 0 or project_spec(real) != spec:
+                if (rc1 != 0 or project_spec(real) != spec) and any(v['key'] == 'map-history' for v in ctx.violations):
+                    stats['more_failing_histories'] = stats.get('more_failing_histories', 0) + 1
+                elif rc1 != 0 or project_spec(real) != spec:
                     # the real table disagrees with the finite-map specification: concrete violation
                     def bad(ls):
                         r, out = runbin(hexe, ls, timeout=20)
@@ -371,7 +420,9 @@ def run(ctx):
                 stats['ops'] += len(lines)
                 nontrivial.add(hash(tuple(lines)))
                 spec = scope_spec(lines)
-                if rc1 != 0 or real != spec:
+                if (rc1 != 0 or real != spec) and any(v['key'] == 'scope-history' for v in ctx.violations):
+                    stats['more_failing_histories'] = stats.get('more_failing_histories', 0) + 1
+                elif rc1 != 0 or real != spec:
                     def bad(ls):
                         r, out = runbin(hexe, ls, timeout=20)
                         return r != 0 or out != scope_spec(ls)
